@@ -334,20 +334,20 @@ def c16_check(tier, replay=None):
     else:
         plan = []
         classes = ["race", "late", "pool", "general", "deep", "shared"]
-        for i in range(18):
+        for i in range(12):
             cls = classes[i % 6]
             for feat in ("sync", "sync,specialized"):
-                for rate in ("0.02", "0.1" + NOWM, "0.5"):
-                    plan.append((feat, cls, 100 + i, (0, 24), rate))
+                for rate in ("0.02", "0.1" + NOWM) if i % 2 == 0 else ("0.1", "0.5"):
+                    plan.append((feat, cls, 100 + i, (0, 16), rate))
         # well over a thousand calls of the same functions from four threads: slow under
         # Miri (minutes per execution batch), thorough tier only
-        plan.append(("sync", "hot", 200, (0, 8), "0.1"))
-        plan.append(("sync", "hot", 201, (0, 8), "0.02"))
+        plan.append(("sync", "hot", 200, (0, 6), "0.1"))
+        plan.append(("sync", "hot", 201, (0, 6), "0.02"))
         # size- and count-thresholded paths (minutes per execution): thorough tier only
-        plan.append(("sync", "crowd", 210, (0, 12), "0.1"))
-        plan.append(("sync", "crowd", 211, (0, 12), "0.5"))
-        plan.append(("sync", "bigsort", 220, (0, 8), "0.1"))
-        plan.append(("sync", "bigsort", 221, (0, 8), "0.5"))
+        plan.append(("sync", "crowd", 210, (0, 8), "0.1"))
+        plan.append(("sync", "crowd", 211, (0, 8), "0.5"))
+        plan.append(("sync", "bigsort", 220, (0, 6), "0.1"))
+        plan.append(("sync", "bigsort", 221, (0, 6), "0.5"))
         plan.append(("sync", "manytexts", 230, (0, 8), "0.1"))
         plan.append(("sync", "longrun", 240, (0, 6), "0.1"))
     execs = 0
